@@ -156,6 +156,7 @@ pub struct Ctx {
 
     pub evaluations: AtomicU64,
     pub nontrivial: AtomicU64,
+    pub hashed: AtomicU64,
     pub states: AtomicU64,
     pub transitions: AtomicU64,
     pub traces_validated: AtomicU64,
@@ -194,6 +195,7 @@ pub fn init_ctx(id: &'static str, tier: Tier, level: &'static str) -> &'static C
         known: load_known_findings(),
         evaluations: AtomicU64::new(0),
         nontrivial: AtomicU64::new(0),
+        hashed: AtomicU64::new(0),
         states: AtomicU64::new(0),
         transitions: AtomicU64::new(0),
         traces_validated: AtomicU64::new(0),
@@ -335,11 +337,14 @@ impl Ctx {
         // distinct_nontrivial: either counted through the hash set of
         // observations, or (for enumerations whose cases are distinct by
         // construction) the number of non-trivial cases
-        let distinct_nontrivial = if distinct_set > 0 { distinct_set } else { nontrivial };
+        // non-trivial cases that are distinct by construction + distinct observation hashes
+        let distinct_nontrivial = distinct_set + nontrivial;
         let mut coverage = json!({
             "evaluations": evaluations,
             "distinct_nontrivial": distinct_nontrivial,
-            "nontrivial_cases": nontrivial,
+            "nontrivial_distinct_by_construction": nontrivial,
+            "nontrivial_hashed_cases": self.hashed.load(Ordering::Relaxed),
+            "nontrivial_distinct_hashes": distinct_set,
             "rule": self.rule.lock().unwrap().clone(),
             "samples": self.samples.lock().unwrap().clone(),
             "exhaustive": self.exhaustive.load(Ordering::Relaxed),
@@ -482,7 +487,10 @@ pub fn start_watchdog() {
 
 pub struct Local {
     pub evaluations: u64,
+    /// non-trivial cases that are distinct by construction
     pub nontrivial: u64,
+    /// non-trivial cases whose observation hash is de-duplicated
+    pub hashed: u64,
     pub distinct: Vec<u64>,
     pub outcomes: BTreeMap<&'static str, u64>,
 }
@@ -492,6 +500,7 @@ impl Local {
         Local {
             evaluations: 0,
             nontrivial: 0,
+            hashed: 0,
             distinct: Vec::new(),
             outcomes: BTreeMap::new(),
         }
@@ -504,7 +513,7 @@ impl Local {
     }
     /// record the hash of a non-trivial observation
     pub fn observe(&mut self, h: u64) {
-        self.nontrivial += 1;
+        self.hashed += 1;
         self.distinct.push(h);
     }
 }
@@ -568,6 +577,7 @@ pub fn sweep(
         done.fetch_add(hi - lo, Ordering::Relaxed);
         c.evaluations.fetch_add(local.evaluations, Ordering::Relaxed);
         c.nontrivial.fetch_add(local.nontrivial, Ordering::Relaxed);
+        c.hashed.fetch_add(local.hashed, Ordering::Relaxed);
         if !local.distinct.is_empty() {
             c.add_distinct(local.distinct.drain(..));
         }
